@@ -324,7 +324,7 @@ def _writes_of_path(p, sinks):
     return out
 
 
-def _tabulate_fold(f, clo, flag, elem_name, elem_adt, sinks):
+def _tabulate_fold(f, clo, flag, elem_name, elem_adt, sinks, body=None, flag_from_env=False):
     """decision table of a fold closure over the variants of its element enum: {(flag, variant): (sep, emits, new flag)}"""
     from .interp import Interp, Opaque, Var, Unsupported, Diverged
     table = {}
@@ -360,7 +360,9 @@ def _tabulate_fold(f, clo, flag, elem_name, elem_adt, sinks):
                 return False
             it.opaque_call = hands_sink
             try:
-                r = it.ev(clo["body"], env)
+                r = it.ev(body if body is not None else clo["body"], env)
+                if flag_from_env:
+                    r = env.get(flag)
             except Diverged:
                 table[(fv, v["name"])] = ("diverges",)
                 continue
@@ -458,10 +460,57 @@ def check_separators(run, rule, f, cfg, select=None):
                     # a flag declared inside the loop body is per-iteration state, not a list flag
                     if any(x.get("k") == "stmt_let" and x["pat"].get("k") == "bind" and x["pat"].get("name") == flag for x in walk(lp["n"])):
                         continue
+                    # element enum of a `for x in ..` loop: from the variants matched on x in the body
+                    el = _for_element(f, lp["n"])
+                    if el is not None:
+                        ename, eadt, ebody = el
+                        table, err2 = _tabulate_fold(f, None, flag, ename, eadt, sinks, body=ebody, flag_from_env=True)
+                        if table is not None and any(row[0] is True for row in table.values() if row[0] != "diverges"):
+                            probs = []
+                            for (fv, vn), row in sorted(table.items()):
+                                if row[0] == "diverges":
+                                    continue
+                                sep, emits, nf = row
+                                if sep and not emits:
+                                    probs.append("%s: separator without element" % vn)
+                                if emits and nf is not False:
+                                    probs.append("%s (flag %s): writes text but leaves the flag %s" % (vn, fv, nf))
+                                if not emits and fv is True and nf is False:
+                                    probs.append("%s: writes nothing but clears the flag (leading separator for the next element)" % vn)
+                            probs = sorted(set(probs))
+                            run.ob(rule, "separator:%s:%s" % (name, flag), not probs,
+                                   "%s: for loop tabulated on %d variants of %s x flag `%s`: %s" % (short, len(f.adts[eadt]["variants"]), eadt.rsplit("::", 1)[-1], flag,
+                                                                                                 "separator written iff the variant writes a clause; the flag is cleared iff something was written" if not probs else "; ".join(probs)),
+                                   sp=lp["n"].get("sp"), cfg=cfg, detail=probs or None)
+                            nloops += 1
+                            continue
                     _check_loop_paths(run, rule, f, cfg, name, short, "for loop", flag, lp["paths"], sinks, lp["n"].get("sp"),
                                       new_flag=lambda p, flag=flag: _assigned_flag(p, flag))
                     nloops += 1
     return nloops
+
+
+def _for_element(f, loop_node):
+    """(element binding name, enum adt, body of one iteration) of a desugared `for x in ..` loop whose body matches x on
+    the variants of a crate enum"""
+    for m in walk(loop_node):
+        if m.get("k") == "match" and "ForLoop" in m.get("src", ""):
+            for arm in m["arms"]:
+                p = arm["pat"]
+                if p.get("k") == "variant" and "Some" in (p.get("path") or {}).get("def", ""):
+                    subs = p.get("subs") or [x["pat"] for x in (p.get("fields") or [])]
+                    if len(subs) == 1 and subs[0].get("k") == "bind":
+                        name = subs[0]["name"]
+                        for mm in walk(arm["body"]):
+                            if mm.get("k") == "match" and mm.get("src") == "Normal" and H.place(mm["scrut"]) == name:
+                                for a in mm["arms"]:
+                                    vs = T.pat_variants(a["pat"])
+                                    if vs:
+                                        enum = vs[0].rsplit("::", 1)[0]
+                                        if enum in f.adts and f.adts[enum]["kind"] == "enum":
+                                            return name, enum, arm["body"]
+            return None
+    return None
 
 
 _seen_loops = set()
